@@ -384,8 +384,8 @@ class Gen:
         """An item argument.  `here`: container object (or parent for slots) the call goes to."""
         rnd, w = self.rnd, self.w
         free = self._items(cls, lambda o: getattr(o, '_container', None) is None)
-        if not bad:
-            return ('free', rnd.choice(free)) if free else ('none-free', None)
+        if not bad and free:
+            return 'free', rnd.choice(free)
         kind = rnd.choice(['wrong', 'wrong', 'none', 'other', 'foreign', 'foreign', 'own', 'own'])
         if kind == 'wrong':
             return kind, rnd.choice([i for i in w.ids if w.cls[i] not in (cls, 'Other')])
@@ -584,8 +584,8 @@ def rack_ops(f=0, r=0):
 def exhaustive_rack(rep, depth, where, on_step=None):
     """All operation sequences up to `depth` over the pool above, pruned by state: from every distinct
     reachable state (breadth first, canonical shortest path) every operation is applied once on impl and on
-    the model and the complete dumps are compared.  `on_step(world, before_obs, op, out)` lets a property
-    add its own impl-level check.  Returns (#states expanded, #steps)."""
+    the model and the complete dumps are compared.  `on_step(world, before, op, out, ops)` (called before
+    the call with out=None and after it with its own earlier answer) lets a property add an impl-level check.  Returns (#states expanded, #steps)."""
     setup = [('append', 1, 0, 3)]
     ops = rack_ops()
 
@@ -610,11 +610,11 @@ def exhaustive_rack(rep, depth, where, on_step=None):
             meta += [None] * len(pre)
             base = w.dump()
             for op in ops:
-                before = on_step and on_step(w, None, op, None)
+                before = on_step and on_step(w, None, op, None, None)
                 out = w.apply(op)
                 dmp = w.dump()
                 if on_step:
-                    on_step(w, before, op, out)
+                    on_step(w, before, op, out, list(path) + [op])
                 steps += 1
                 lines += ['load 0', World.line(op)]
                 impl += [None, out + ' ' + dmp]
@@ -630,3 +630,58 @@ def exhaustive_rack(rep, depth, where, on_step=None):
                                       'op': World.line(meta[k][1])} if meta[k] else {'line': lines[k]})
         frontier = nxt
     return states, steps, len(seen)
+
+
+def random_histories(rep, rnd, n, length, malformed, where, on_step=None, tag=''):
+    """`n` histories of `length` generated operations over the full pool, each step compared with the model."""
+    lines, impl, meta = [], [], []
+    for h in range(n):
+        w = World()
+        g = Gen(w, rnd, malformed)
+        pre = w.setup_lines()
+        lines += pre
+        impl += [None] * len(pre)
+        meta += [None] * len(pre)
+        ops = []
+        for _ in range(length):
+            op, gtag = g.op()
+            before = on_step and on_step(w, None, op, None, ops)
+            out = w.apply(op)
+            ops.append(op)
+            if on_step:
+                on_step(w, before, op, out, ops)
+            lines.append(World.line(op))
+            impl.append(out + ' ' + w.dump())
+            meta.append((h, len(ops)))
+            rep.dist[tag + gtag] += 1
+            rep.dist[tag + 'outcome.' + out.replace('err ', '')] += 1
+            rep.case(sig=(tuple(ops[-3:]), out) if out != 'ok' or len(ops) > 1 else None,
+                     sample={'history': [World.line(o) for o in ops[-4:]], 'outcome': out} if h == 0 and len(ops) == 8 else None)
+        meta[-1] = (h, len(ops), [World.line(o) for o in ops])
+    hist = {m[0]: m[2] for m in meta if m and len(m) == 3}
+
+    def case_of(k):
+        m = meta[k]
+        return {'pool': 'FULL_POOL', 'history': hist[m[0]][:m[1]]} if m else {'line': lines[k]}
+    return compare_with_model(rep, lines, impl, where, case_of)
+
+
+def parse_line(line):
+    return tuple(None if t == 'N' else int(t) if t.lstrip('-').isdigit() else t for t in line.split())
+
+
+def shrink(ops, fails, budget=400):
+    """Greedy delete-one-op-to-fixpoint; `fails(ops)` re-executes a history on a fresh world."""
+    ops = list(ops)
+    changed = True
+    while changed and budget > 0:
+        changed = False
+        for k in range(len(ops) - 1, -1, -1):
+            cand = ops[:k] + ops[k + 1:]
+            budget -= 1
+            if budget <= 0:
+                break
+            if fails(cand):
+                ops = cand
+                changed = True
+    return ops
